@@ -27,7 +27,8 @@ RULE = ("one run = 3-5 components of all four categories, 60-200 events: a data 
 QUICK_RUNS = 4000
 THOROUGH_RUNS = 250_000
 EXPECT_PROBES = ["subscription_during_stream", "duplicate_request", "unknown_component_request", "back_to_back_subscriptions",
-                 "request_same_iteration_as_message", "all_four_categories"]
+                 "request_same_iteration_as_message", "all_four_categories",
+                 "actor_restarted_after_api_failure"]
 
 
 def scenario(sim: Sim) -> None:
@@ -78,6 +79,7 @@ def scenario(sim: Sim) -> None:
             return fakes.battery_data(cid, ts, soc=f, capacity=f + 0.5, temperature=f + 0.25)
         return fakes.ev_data(cid, ts, active_power=f, frequency=f + 0.5)
 
+    restart_delay_us = ch.choice("restart_delay_us", [2_000_000, 0, 50_000])
     seq = {c: 0 for c in cids}                 # messages sent so far per component
     seq_idle = {c: 0 for c in cids}            # ... as of the last idle point
     subs: dict[str, dict[str, Any]] = {}       # channel name -> subscription record
@@ -87,6 +89,8 @@ def scenario(sim: Sim) -> None:
     def on_idle() -> None:
         for c in cids:
             seq_idle[c] = seq[c]
+        if api.components_failures or (api.failure_times and sim.now_us <= api.failure_times[-1] + restart_delay_us + 1000):
+            return      # the actor is (about to be) waiting out its restart delay: requests are not consumed yet
         for s in awaiting_idle:
             s["settled_seq"] = seq[s["cid"]]
         awaiting_idle.clear()
@@ -95,6 +99,7 @@ def scenario(sim: Sim) -> None:
         reg = ChannelRegistry(name="reg")
         req_ch: Any = Broadcast(name="ds-requests")
         actor = DataSourcingActor(req_ch.new_receiver(limit=1000), reg)
+        type(actor).RESTART_DELAY = timedelta(microseconds=restart_delay_us)
         actor.start()
         req_tx = req_ch.new_sender()
         await asyncio.sleep(0.001)
@@ -151,6 +156,16 @@ def scenario(sim: Sim) -> None:
                     await subscribe(s["ns"], s["cid"], s["metric"], True)
                 else:
                     sim.probe("unknown_component_request")
+                    if subs and not awaiting_idle and ch.chance("api_down", 0.15):
+                        # (only once the source has its component-category cache: then only the unknown id is looked
+                        # up through the API, so the failure hits exactly this request and no legitimate one)
+                        # the API is down when the source looks the unknown id up: components() raises, the
+                        # actor's run logic fails and is restarted after the restart delay.  Requests sent
+                        # meanwhile wait in the channel; existing streams must go on undisturbed and nothing
+                        # may be lost or duplicated afterwards.
+                        api.components_failures = 1
+                        sim.probe("actor_restarted_after_api_failure")
+                        sim.note("API down for the next components() call")
                     await subscribe("a", 999, M.ACTIVE_POWER, False)
                 last_was_sub = True
             g = ch.weighted("gap", [4, 3, 2, 1])
@@ -163,7 +178,7 @@ def scenario(sim: Sim) -> None:
                 await asyncio.sleep(ch.int_between("gap_ms", 5, 400) / 1e3)
             if ch.chance("stall", 0.01):
                 sim.stall(ch.choice("stall_us", [1000, 200_000]))
-        await asyncio.sleep(1.0)
+        await asyncio.sleep(3.0)
         sim.loop.idle_hooks.remove(on_idle)
         for r in readers:
             r.cancel()
